@@ -13,6 +13,13 @@
 //     two digests, append / insert bytes outside the signature container,
 //     graft the signature of a sibling artifact, swap the leaf certificate for
 //     another key's, truncate the certificate chain.
+//  3. XML signature wrapping (vsixwrap.go): a package part modified and, for
+//     every element the verifier has to locate between SignatureValue and the
+//     part's digest, an unsigned look-alike put next to the signed one (all
+//     placements, Id treatments and child subsets of a stated family).
+//  4. inputs with several members of identical content at places of their own
+//     (generated xar, handmade jar, VSIX with copied parts): every byte of every
+//     copy is flipped, so a check keyed by content instead of location shows.
 //
 // Oracle: relicx.Verify(path, TrustOpts()) - integrity on, chain check against
 // the fixture root - must not return success for a protected mutation. Any
@@ -836,8 +843,10 @@ func main() {
 		"flip_alphabet": "xor 0x01, xor 0x80 at every enumerated offset",
 		"formats":       len(builders),
 	})
-	run.Rule("a case is one mutated file verified by relic; non-trivial = the mutation hits a byte the independent reader classes as protected (flips), or is an asserted semantic mutation; keyed by artifact, offset and mask / mutation class and site; command line: for one artifact per format that needs no side file, the real `relic verify` binary on every sequence of <=3 files over {good copy, tampered copy (first covered byte, one bit)}: exit status non-zero exactly when a tampered file is present, every good file reported OK")
+	run.Rule("a case is one mutated file verified by relic; non-trivial = the mutation hits a byte the independent reader classes as protected (flips), or is an asserted semantic mutation; keyed by artifact, offset and mask / mutation class and site; command line: for one artifact per format that needs no side file, the real `relic verify` binary on every sequence of <=3 files over {good copy, tampered copy (first covered byte, one bit)}: exit status non-zero exactly when a tampered file is present, every good file reported OK; XML signature wrapping (vsix): one referenced part modified + an unsigned look-alike of one link of the chain SignedInfo -> SignedInfo/Reference -> Object(by Id) -> Manifest -> Manifest/Reference, re-pointed at the modified part: Manifest/Reference {before, after, first, last in Manifest}, Manifest {before, after}, Object {every gap between Signature's children} x Id {same, absent, other} and wrapped around the signed Object {Id absent, other} x {signed first, last}, for every referenced part; SignedInfo/Reference {before, after} x every subset of its children and SignedInfo {every gap between Signature's children} x every subset of its children x every subset of its Reference's children, each x Object' {replaced in place, shadow before, shadow after}, for the first referenced payload part; all asserted (SignedInfo and SignatureValue are never touched, the part differs from what was signed); duplicate content: a generated xar with 3 groups of members whose archived bytes are identical at separate heap extents (stored / zlib, adjacent / not, same / other checksum style), the handmade jar with a second copy of a stored and of a deflated member, the VSIX fixture with a second copy of two parts - every byte of every copy flipped")
 	run.Assume("fixture keys and chain root->inter->leaf; trust pool holds only the fixture root; PGP keyring holds rsaA and rsaB")
+	run.Assume("the digest an attacker would write into an unsigned look-alike SignedInfo is computed by a harness-owned canonicaliser (no prefixed names) that must reproduce the digest the signer wrote for the package Object of the same artifact, else those look-alikes are listed as not constructible")
+	run.Assume("xar members sharing ONE heap extent (coalesced heap) are not enumerated: relic's signer refuses such a package (streaming heap reader)")
 	run.Assume("classification of bytes is derived from the format specifications by harness-owned readers; bytes not clearly covered are left unclassified and only tallied")
 	for _, a := range arts {
 		if a.Windows != nil {
